@@ -7,6 +7,7 @@ import InTotoModel.Model.JsonParse
 import InTotoModel.Model.Threshold
 import InTotoModel.Driver.RulesProto
 import InTotoModel.Driver.VerifyProto
+import InTotoModel.Generated.StrRequests
 /-
   Executable model driver: one operation per input line, one canonical answer per line.
   Unknown or malformed operations answer `bad-op` (never a default).
@@ -96,6 +97,8 @@ def step (line : String) : String :=
       if RulesSpec.Normalized item links then toString (RulesSpec.verdict item links) else "na"
     | none => "bad-op"
   | "verify" :: toks => runVerify toks
+  | ["strreq-all-owned", _] =>
+    toString (Generated.strRequests.all fun r => r.kind != .borrowed && r.kind != .unknown)
   | ["prefix8", h] =>
     match strOfHex h with
     | some k => if (Utf8.encode k).length == 64 then "ok " ++ hexOfStr (Verify.prefix8 k) else "rejected"
